@@ -259,8 +259,20 @@ class Evaluator:
                 cur.raw = True
                 for d, dfi in reversed(decos):
                     if isinstance(d, ast.Call):
-                        self.issue(st, node, f"decorator factory {ast.unparse(d)[:40]} on {fi.qualname}")
-                        break
+                        # a decorator factory: its arguments are evaluated where the function is defined (module level), the call yields the decorator
+                        if any(isinstance(a_, ast.Starred) for a_ in d.args) or any(k_.arg is None for k_ in d.keywords):
+                            self.issue(st, node, f"decorator factory {ast.unparse(d)[:40]} on {fi.qualname}")
+                            break
+                        self.frames.append(Frame(None, fi.module))
+                        try:
+                            dst = State({}, st.heap, st.guard, {})
+                            dpos = [self.eval(a_, dst) for a_ in d.args]
+                            dkw = {k_.arg: self.eval(k_.value, dst) for k_ in d.keywords}
+                        finally:
+                            self.frames.pop()
+                        deco = self._invoke(dfi, st, dpos, dkw, None, None, d)
+                        cur = self.call(deco, [cur], {}, None, st, node)
+                        continue
                     cur = self._invoke(dfi, st, [cur], {}, None, None, node)
                 else:
                     res_ = self.call(cur, ([self_val] if (self_val is not None and not fi.is_static and fi.cls is not None) else []) + list(pos), kw, star_kw, st, node)
@@ -411,7 +423,18 @@ class Evaluator:
         msg = None
         if s.exc is not None:
             e = s.exc
-            if isinstance(e, ast.Call):
+            r_ = None
+            if isinstance(e, ast.Call) and isinstance(e.func, (ast.Name, ast.Attribute)):
+                root_ = e.func
+                while isinstance(root_, ast.Attribute):
+                    root_ = root_.value
+                if isinstance(root_, ast.Name) and root_.id not in st.env:
+                    r_ = self.prog.resolve_expr(self.frames[-1].module, e.func, st.imports)
+            if r_ is not None and r_[0] == 'func':
+                # `raise helper(...)`: the exception is what the helper builds
+                v_ = self.eval(e, st)
+                exc = v_.args[0].v if isinstance(v_, Term) and v_.head == 'exception' and v_.args and isinstance(v_.args[0], Const) else r_[1]
+            elif isinstance(e, ast.Call):
                 exc = self.exc_name(e.func, st)
                 for a in e.args:
                     self.eval(a, st)
@@ -1619,11 +1642,14 @@ class Evaluator:
                     s2 = st.clone()
                     self.assign(g0.target, item, s2, e)
                     conds = [self.truth(self.eval(c_, s2), s2, c_) for c_ in g0.ifs]
-                    if not all(isinstance(c_, Const) for c_ in conds):
-                        return self.unsupported(st, e, 'comprehension filter that does not fold')
-                    if all(c_.v for c_ in conds):
-                        vals.append(self.eval(e.elt, s2))
-                return Tup(vals, 'list')
+                    if any(isinstance(c_, Const) and not c_.v for c_ in conds):
+                        continue
+                    open_ = [c_ for c_ in conds if not isinstance(c_, Const)]
+                    vals.append((self.conj(open_) if open_ else TRUE, self.eval(e.elt, s2)))
+                if all(isinstance(c_, Const) for c_, _ in vals):
+                    return Tup([v_ for _, v_ in vals], 'list')
+                # items kept under a condition that is not settled: a lazily filtered sequence (only `next` of it is interpreted)
+                return Term('filtered', tuple(Tup([c_, v_]) for c_, v_ in vals), kind='iterator')
         if len(e.generators) != 1 or e.generators[0].ifs:
             vals = self.unsupported(st, e, 'complex comprehension')
             return vals
@@ -1660,6 +1686,7 @@ class Evaluator:
                 s2 = st.clone()
                 self.assign(g.target, item, s2, e)
                 vals.append(self.eval(e.elt, s2))
+                st.heap = s2.heap           # objects created by the element expression live on
             return Tup(vals, 'list')
         else:
             arr = term_as_num(it, True, getattr(it, 'kind', None))
@@ -1881,6 +1908,14 @@ class Evaluator:
         return False
 
     def compare(self, op, a: Val, b: Val, st, node) -> Val:
+        if all(isinstance(v_, Term) and v_.head in ('flag', 'enum') for v_ in (a, b)) and veq(a.args[0], b.args[0]):
+            fa, fb = a.args[-1].v if a.head == 'enum' else a.args[1].v, b.args[-1].v if b.head == 'enum' else b.args[1].v
+            if isinstance(op, (ast.In, ast.NotIn)) and a.head == 'flag':
+                return Const(((fb & fa) == fa) != isinstance(op, ast.NotIn))
+            if isinstance(op, (ast.Eq, ast.Is)):
+                return Const(veq(a, b))
+            if isinstance(op, (ast.NotEq, ast.IsNot)):
+                return Const(not veq(a, b))
         if isinstance(op, (ast.Is, ast.IsNot)):
             neg = isinstance(op, ast.IsNot)
             if isinstance(b, Const) and b.v is None:
@@ -1894,14 +1929,6 @@ class Evaluator:
                 return Const((a.v is b.v) != neg)
             p = P('is', a, b)
             return p_not(p) if neg else p
-        if all(isinstance(v_, Term) and v_.head in ('flag', 'enum') for v_ in (a, b)) and veq(a.args[0], b.args[0]):
-            fa, fb = a.args[-1].v if a.head == 'enum' else a.args[1].v, b.args[-1].v if b.head == 'enum' else b.args[1].v
-            if isinstance(op, (ast.In, ast.NotIn)) and a.head == 'flag':
-                return Const(((fb & fa) == fa) != isinstance(op, ast.NotIn))
-            if isinstance(op, (ast.Eq, ast.Is)):
-                return Const(veq(a, b))
-            if isinstance(op, (ast.NotEq, ast.IsNot)):
-                return Const(not veq(a, b))
         if isinstance(op, (ast.In, ast.NotIn)):
             neg = isinstance(op, ast.NotIn)
             if isinstance(a, Const) and isinstance(b, Tup) and all(isinstance(i, Const) for i in b.items):
@@ -2049,6 +2076,16 @@ class Evaluator:
                 raise _PyRaise('KeyError')
             return Term('getattr', (base.args[0], idx), kind='unknown')
         if isinstance(base, Kw):
+            if isinstance(idx, Tup) and idx.kind == 'tuple' and self.decide is not None:
+                # a boolean-valued part of a tuple key whose truth the rule has decided (the state of the cache entry) is that boolean
+                settled = []
+                for it_ in idx.items:
+                    if isinstance(it_, Term) and it_.kind == 'bool':
+                        t_ = self.truth(it_, st, node)
+                        settled.append(Const(bool(t_.v)) if isinstance(t_, Const) else it_)
+                    else:
+                        settled.append(it_)
+                idx = Tup(settled, 'tuple')
             key = _const_key(idx)
             if key is not None and key in base.items:
                 return base.items[key]
@@ -2358,11 +2395,19 @@ class Evaluator:
         if name.startswith('ndarray.') or name.startswith('method.'):
             meth = name.split('.', 1)[1]
             recv = fn.self_val
-            if isinstance(recv, Const) and isinstance(recv.v, str) and meth in PURE_STR_METHODS and all(isinstance(a_, Const) for a_ in pos) \
-                    and all(isinstance(a_, Const) for a_ in kw.values()) and star_kw is None:
-                # constant folding of a pure string method on literals ('{}_x'.format('reference'), name.replace('-', '_'), ...)
+            def _lit(a_):
+                if isinstance(a_, Const):
+                    return True, a_.v
+                if isinstance(a_, Num) and a_.length is None and a_.r.is_const():
+                    c_ = a_.r.const_value()
+                    return True, (int(c_) if c_.denominator == 1 else float(c_))
+                return False, None
+            lits_p, lits_k = [_lit(a_) for a_ in pos], {k_: _lit(a_) for k_, a_ in kw.items()}
+            if isinstance(recv, Const) and isinstance(recv.v, str) and meth in PURE_STR_METHODS and all(ok_ for ok_, _ in lits_p) \
+                    and all(ok_ for ok_, _ in lits_k.values()) and star_kw is None:
+                # constant folding of a pure string method on literals ('{}_x'.format('reference'), name.replace('-', '_'), url.format(file_id=42), ...)
                 try:
-                    out_ = getattr(recv.v, meth)(*[a_.v for a_ in pos], **{k_: a_.v for k_, a_ in kw.items()})
+                    out_ = getattr(recv.v, meth)(*[v_ for _, v_ in lits_p], **{k_: v_ for k_, (_, v_) in lits_k.items()})
                     if isinstance(out_, (str, bool, int)) or out_ is None:
                         return Const(out_) if not isinstance(out_, int) or isinstance(out_, bool) else Num(C(out_))
                     if isinstance(out_, (list, tuple)) and all(isinstance(x_, str) for x_ in out_):
@@ -3300,6 +3345,19 @@ def b_str_isinstance_helper():
 
 
 def b_next(ev, pos, kw, st, node):
+    if pos and isinstance(pos[0], Term) and pos[0].head == 'filtered':
+        # first item whose condition holds: a chain of conditionals; it has to end in an item kept unconditionally, or in the default
+        items = [(t.items[0], t.items[1]) for t in pos[0].args]
+        res = pos[1] if len(pos) > 1 else None
+        for k_ in range(len(items)):
+            if isinstance(items[k_][0], Const) and items[k_][0].v:
+                items, res = items[:k_], items[k_][1]
+                break
+        if res is None:
+            return ev.unsupported(st, node, 'next() of a filtered sequence that may be empty')
+        for c_, v_ in reversed(items):
+            res = gamma(c_, v_, res)
+        return res
     if pos and isinstance(pos[0], Tup):
         # next(<comprehension over a literal table>): its first element
         if pos[0].items:
